@@ -32,7 +32,7 @@ macro_rules! stats_struct {
 }
 stats_struct!(
     bodies, applies, deliveries, postponed, max_postponed_one_target, nested_replay, skipped_dead, skipped_dead_postponed, optional_taken, optional_skipped, polled_events, polled_in_tree, polled_reactions, payloads, payload_zero_listeners, payload_abort_release, doomed_insts, once_fired, once_retrigger_after_fire, revokes_applied, revoke_mid_dispatch, kills, kill_self, err_returns, excl_bodies, registrations, reg_dead_entity, slot_respawn, max_depth, roots, multi_kind_same_tree, sibling_reorder, frames, guaranteed_gc, guaranteed_poll, a1_ambiguous, ewr_bodies, ewr_nodata_ok, inserts_dead_at_apply, setifneq_equal, setifneq_diff, removal_reinsert_removal, sig_zero, entity_recursive_despawn, fifo_pairs_checked, sys_calls, reactors_per_key_ge7,
-    probes, ev_total, replayed, sys_recursive, acc_ops, single_acc
+    probes, ev_total, replayed, sys_recursive, acc_ops, single_acc, app_setup_again
 );
 
 #[derive(Clone, Debug)]
@@ -1163,7 +1163,7 @@ impl<'a> Checker<'a>
     /// The body of `d` is at the cursor; `e` is the system entity, `root` whether this invocation started the tree.
     fn run(&mut self, d: Delivery, e: u64, root: bool) -> Res<()>
     {
-        let Some(Ev::Body { inst, n, cap, s }) = self.peek()?.cloned() else { unreachable!() };
+        let Some(Ev::Body { inst, n, cap, s, chg }) = self.peek()?.cloned() else { unreachable!() };
         self.advance()?;
         self.stats.bodies += 1;
         let ti = inst as usize;
@@ -1174,6 +1174,12 @@ impl<'a> Checker<'a>
             fail!(self, "C13", "local-reset", &["C17"], "instance {inst}: run #{} sees Local={n} captured={cap}", self.insts[ti].runs);
         }
         let n = self.insts[ti].runs;
+        // the change-detection baseline ("last run" tick) is system state too: a resource never touched since setup is new
+        // to a system exactly once
+        if chg != (n == 1)
+        {
+            fail!(self, "C13", "change-detection-reset", &["C17"], "instance {inst}: run #{n} sees a never-touched resource as changed={chg} (the system's last-run tick must persist like its Locals)");
+        }
         // per-sender FIFO (C12)
         // (only deliveries that carry a unique payload id are distinguishable; manual runs and trigger reactions of one
         // kind are interchangeable, so their relative order is not observable)
@@ -1960,7 +1966,7 @@ impl<'a> Checker<'a>
         {
             match self.peek()? { Some(Ev::StepBegin(x)) if *x == i => self.advance()?, _ => { self.unexpected("step begin")?; } }
             self.gc_guaranteed_this_step = false;
-            if (!self.doomed_ents.is_empty() || !self.sys.doomed.is_empty()) && !matches!(step, Step::Direct(WOp::Gc) | Step::Direct(WOp::SigClone(_)) | Step::Direct(WOp::SigDrop(_)) | Step::Direct(WOp::SigPrepare(..)) | Step::Direct(WOp::Reparent(..)) | Step::Update)
+            if (!self.doomed_ents.is_empty() || !self.sys.doomed.is_empty()) && !matches!(step, Step::Direct(WOp::Gc) | Step::Direct(WOp::SigClone(_)) | Step::Direct(WOp::SigDrop(_)) | Step::Direct(WOp::SigPrepare(..)) | Step::Direct(WOp::Reparent(..)) | Step::Update | Step::AppSetup)
             {
                 return Err(Stop::Bail(Bail("an entity whose last signal clone was dropped is not collected before other work (placement of in-tree collections is unspecified)".into())));
             }
@@ -1979,6 +1985,7 @@ impl<'a> Checker<'a>
                     self.expect_tolerant(|e| matches!(e, Ev::NowEnd(x) if *x == u), "end of direct step")?;
                 }
                 Step::Update => { self.update(frame)?; frame += 1; }
+                Step::AppSetup => { self.stats.app_setup_again += 1; }
             }
             self.expect_tolerant(|e| matches!(e, Ev::StepEnd(x) if *x == i), "step end")?;
             if !self.stack.is_empty() || !self.postponed.is_empty() { fail!(self, "C02", "postponed-never-resolved", &["C11"], "work outstanding at the end of step {i}"); }
@@ -2181,10 +2188,11 @@ impl<'a> Checker<'a>
             let input = pack(state, value);
             match self.peek()?.cloned()
             {
-                Some(Ev::SysBody { key: k2, n: n2, input: i2 }) if k2 == fkey && i2 == input =>
+                Some(Ev::SysBody { key: k2, n: n2, input: i2, chg }) if k2 == fkey && i2 == input =>
                 {
                     // inner invocations of a recursive call: their state is unspecified (fresh, or shared among the inner ones)
                     if fresh { n = n2; }
+                    if !fresh && chg != (n2 == 1) { fail!(self, "C17", "syscall-state", &["C13"], "call through {kind:?} key {key}: call #{n2} on this state sees a never-touched resource as changed={chg} (the change-detection baseline is part of the persistent system state)"); }
                     if n2 != n { fail!(self, "C17", "syscall-state", &["C13"], "call through {kind:?} key {key}: the system's Local shows {n2}, expected {n} (state must persist per key and be independent between keys)"); }
                     self.advance()?;
                 }
